@@ -21,6 +21,7 @@ type Clause struct {
 
 type LoopSpec struct {
 	Ordinal    int
+	EntryAsserts []*Clause // proved when the loop is entered; neither assumed nor preserved
 	Invariants []*Clause
 	Decreases  *Clause
 	Diverges   bool
@@ -40,6 +41,7 @@ type FuncContract struct {
 	Loops     map[int]*LoopSpec
 	Decreases *Clause // recursion measure
 	Flags     map[string]string
+	Spawned   []*Define // ghost bookkeeping applied where the function is started with a go statement
 	Defines   []*Define // ghost bookkeeping defined by this function's result (assumed at call sites, not checked in the body)
 	Props     []string // property ids this contract's obligations belong to ("" = by function map)
 	Params    []string // explicit parameter names for interface/extern/functype contracts
@@ -261,6 +263,19 @@ func (cs *ContractSet) parseFile(path, pkg string) error {
 			} else {
 				cur.Ensures = append(cur.Ensures, c)
 			}
+		case "spawned":
+			if cur == nil {
+				return fail("spawned outside a block")
+			}
+			i := strings.Index(rest, ":")
+			if i < 0 {
+				return fail("spawned needs target: expr")
+			}
+			e, err := ParseExpr(rest[i+1:])
+			if err != nil {
+				return fail("spawned: %v", err)
+			}
+			cur.Spawned = append(cur.Spawned, &Define{Target: strings.TrimSpace(rest[:i]), Expr: e, Text: rest})
 		case "defines":
 			if cur == nil {
 				return fail("defines outside a block")
@@ -294,6 +309,15 @@ func (cs *ContractSet) parseFile(path, pkg string) error {
 			}
 			curLoop = &LoopSpec{Ordinal: k}
 			cur.Loops[k] = curLoop
+		case "entry_assert":
+			if curLoop == nil {
+				return fail("entry_assert outside a loop")
+			}
+			c, err := parseClause("entry_assert", rest)
+			if err != nil {
+				return err
+			}
+			curLoop.EntryAsserts = append(curLoop.EntryAsserts, c)
 		case "invariant":
 			if curLoop == nil {
 				return fail("invariant outside a loop")
